@@ -138,7 +138,8 @@ def RK (E : Env S) (n : Nat) : Prop :=
   ∀ s nt fr r x, WInv E s → E4g s → FRo E x s nt → FrK E s nt fr → fr.cost.fin < x → resume E n s nt fr = some r →
     WInv E r.1 ∧ E4g r.1 ∧ Keep4 x s r.1 ∧ (∀ S', S' ≠ nt → ¬ lastGe s S' x → FR E r.1 S') ∧
     (∀ p fr', r.2 = .yield p fr' → FrK E r.1 nt fr') ∧
-    (r.2 = .ret → FR E r.1 nt ∧ IdxDone E r.1 nt fr.ci)
+    (r.2 = .ret → FR E r.1 nt ∧ IdxDone E r.1 nt fr.ci ∧ ∀ ci', Entered r.1 nt ci' → ci' ≤ fr.ci) ∧
+    (∀ ci q, q ∈ r.1.bankAt nt ci → q ∈ s.bankAt nt ci ∨ ∃ fr', r.2 = .yield q fr')
 def AK (E : Env S) (n : Nat) : Prop :=
   ∀ s as cs ae af acc done r x, WInv E s → E4g s → FRset E x s →
     (∀ a c, (a, c) ∈ as.zip cs → ∃ e, (s.clOf a)[c]? = some e ∧ e.fin < x) →
@@ -264,8 +265,8 @@ theorem dk_step (E : Env S) (n : Nat) (ihR : RK E n) (ihD : DK E n) : DK E (n + 
   · cases h
   · next s1 hr =>
     cases h
-    obtain ⟨g1, g2, g3, g4, _, g6⟩ := ihR _ _ _ _ x hw h4 hfo hk hx hr
-    obtain ⟨q1, q2⟩ := g6 rfl
+    obtain ⟨g1, g2, g3, g4, _, g6, _⟩ := ihR _ _ _ _ x hw h4 hfo hk hx hr
+    obtain ⟨q1, q2, _⟩ := g6 rfl
     refine ⟨g1, g2, fun S' hl' => ?_, g3, q2⟩
     by_cases hS : S' = nt
     · subst hS; exact q1
